@@ -743,6 +743,11 @@ class CommandMixin(object):
             else:
                 self.probes["close_keeps_mailbox"] += 1
         self._compare(sub, alts, app, ["C07", "C08"], ["C08"], "close")
+        if rm and len(alts) == 1 and len(rest) == 1 and rest[0].get("type") == "closed":
+            # the last open side closed and was told so: whatever was stored is discarded
+            # from here on, whether or not the rows were seen to go (C01: a later open
+            # must start empty)
+            ev.notes["_expect_deleted"] = k
         self._usage_check(ev, sub.pre, sub.post, sub.upre, sub.upost, now, False, transient, issuer_app=app,
                           closing=(app, mid, side, msg.get("mood")))
         if rec is not None:
@@ -754,6 +759,18 @@ class CommandMixin(object):
         """monitor updates that need the (possibly new) incarnation records"""
         if not hasattr(self, "sub_epoch"):
             self.sub_epoch = {}
+        gone = sub.ev.notes.pop("_expect_deleted", None)
+        if gone is not None and gone in self.mb_inc:
+            # rows still there although the mailbox was closed by its last side: a new
+            # incarnation as far as the replay history is concerned
+            for cid in self.subs.pop(gone, []):
+                cmo = self.conns.get(cid)
+                if cmo is not None and cmo.held:
+                    cmo.stale = True
+            old = self.mb_inc[gone]
+            fresh = self._new_mb(gone, sub.ev)
+            fresh["act"], fresh["any"], fresh["act_t"] = old.get("act"), old.get("any"), old.get("act_t")
+            self.probes["closed_mailbox_rows_linger"] += 1
         for (k_mb, k_np, side_) in sub.ev.notes.pop("_att", []):
             self._attempt(k_mb, k_np, side_)
         for rec in sub.ev.notes.pop("_ok", []):
